@@ -378,9 +378,85 @@ def unit_plan_adjoint(version, level):
     return run
 
 
+# ------------------------------------------------------------------ interpolation-coefficient transform of the Gaussian plan (all four call forms)
+def unit_plan_transform(order):
+    """NLDFGaussianPlan._get_transformed_interpolation_terms: forward = A^-1 N, backward = N A^-T (N = diag(alpha_norms)); the solve is the LAPACK contract
+    (named solution with its defining system).  Obligations: the in-place and the out-of-place form compute the same thing for both directions, the
+    out-of-place form leaves its argument alone, and backward is the transpose of forward."""
+    def run(ctx):
+        from contracts.planharness import make_settings, make_plan
+        from contracts.c16 import LinAlg
+        from contracts.common import sym_array, same_elements, NS
+        from pyvc.interp import Unsupported, PyRaise
+        PMOD = "ciderpress.dft.plans"
+        it = ctx.interp
+        hyps = []
+        st = make_settings(it, "j", "GGA", "one", hyps)
+        plan = make_plan(it, st, 1, nalpha=2, hyps=hyps, coef_order=order)
+        fq = [PMOD + ":NLDFGaussianPlan._get_transformed_interpolation_terms"]
+        A = sym_array("A", (2, 2))
+        N = sym_array("N", (2,))
+        plan.fields["_alpha_transform"] = A
+        plan.fields["alpha_norms"] = N
+        la = LinAlg([])
+        it.overrides[PMOD + ":_stable_solve"] = lambda interp, f, args, kwargs: la.solve(np.array(args[0], dtype=object), np.array(args[1], dtype=object))
+        ctx.assume("_stable_solve(M, B) is the LAPACK contract: the unique X with M X = B (named solution symbols with their defining system); _alpha_transform and alpha_norms arbitrary")
+        G = NS
+        shape = (G, 2) if order == "gq" else (2, G)
+
+        def run_(x, fwd, inplace):
+            arr = x.copy()
+            out = it.call_method(plan, "_get_transformed_interpolation_terms", [arr], {"i": 0, "fwd": fwd, "inplace": inplace})
+            return np.asarray(out, dtype=object), arr
+        tag = "plan-transform[%s]" % order
+        res = {}
+        for fwd in (True, False):
+            x = sym_array("pf" if fwd else "pb", shape)
+            try:
+                o_in, a_in = run_(x, fwd, True)
+                o_out, a_out = run_(x, fwd, False)
+            except (Unsupported, PyRaise) as e:
+                ctx.undecided("%s fwd=%s runs" % (tag, fwd), str(e)[:200], fq)
+                return
+            H = la.definitions()
+            ctx.holds("%s fwd=%s: the out-of-place form leaves its argument unchanged" % (tag, fwd), same_elements(a_out, x), "", fq)
+            ctx.holds("%s fwd=%s: the in-place form returns (a view of) the array it was given" % (tag, fwd), same_elements(a_in, o_in), "", fq)
+            for idx in itertools.product(*[range(k) for k in shape]):
+                ctx.equal("%s fwd=%s: out-of-place result[%s] = in-place result" % (tag, fwd, ",".join(map(str, idx))), H, o_out[idx], o_in[idx], fq, replay=replay_plan_transform(order))
+            res[fwd] = (x, o_in)
+        H = la.definitions()
+        (pf, Ff), (pb, Fb) = res[True], res[False]
+        lhs = tm.mk_add(*[tm.lift(pb[idx]) * tm.lift(Ff[idx]) for idx in itertools.product(*[range(k) for k in shape])])
+        rhs = tm.mk_add(*[tm.lift(Fb[idx]) * tm.lift(pf[idx]) for idx in itertools.product(*[range(k) for k in shape])])
+        ctx.equal("%s: <q, forward(p)> = <backward(q), p>  (backward is the transpose of forward)" % tag, H, lhs, rhs, fq)
+        ctx.canary("%s canary" % tag, H, lhs, 2 * rhs)
+        del it.overrides[PMOD + ":_stable_solve"]
+    return run
+
+
+def replay_plan_transform(order):
+    def replay(wit):
+        from pyvc import native
+        native.install_shim()
+        from ciderpress.dft.settings import NLDFSettingsVJ
+        from ciderpress.dft.plans import NLDFGaussianPlan
+        st = NLDFSettingsVJ("GGA", [1.0, 0.03], "one", ["se"], [[2.0, 0.04]])
+        plan = NLDFGaussianPlan(st, 1, 0.01, 1.8, 6, coef_order=order)
+        rng = np.random.RandomState(0)
+        x = rng.rand(5, 6) if order == "gq" else rng.rand(6, 5)
+        out = {}
+        for fwd in (True, False):
+            a = plan._get_transformed_interpolation_terms(x.copy(), i=0, fwd=fwd, inplace=True)
+            b = plan._get_transformed_interpolation_terms(x.copy(), i=0, fwd=fwd, inplace=False)
+            out["max_abs_diff_fwd=%s" % fwd] = float(np.max(np.abs(np.asarray(a) - np.asarray(b))))
+        out["reproduced"] = bool(max(out.values()) > 1e-10)
+        return out
+    return replay
+
+
 def unit_registry(ctx):
     for what in ("multiply_atc_integrals / multiply_atc_integrals_vk (dgemm + pair tables of convolution_collection)", "contract_rad_to_orb / contract_orb_to_rad",
-                 "compute_mol_convs_* / compute_pot_convs_*", "NLDFGaussianPlan.get_transformed_interpolation_terms (fwd / bwd solve)",
+                 "compute_mol_convs_* / compute_pot_convs_*",
                  "LCAOInterpolator._interpolate_nopar_atom and the Python forward / backward chains",
                  "SDMXBasePlan.get_features / get_vxc", "SDMXcontract_ao_to_bas_l1 / _l1_bwd (scratch-buffer pattern outside the supported C subset)",
                  "contract_shl_to_alpha_l1 / _bwd (two different collapsed block loops: the bijection needs a div/mod re-indexing the matcher does not find)",
@@ -397,6 +473,8 @@ def units():
         u.append(("inplace/%s" % fwd, unit_inplace(fwd, bwd, tabs)))
     for version, level in (("j", "MGGA"), ("i", "GGA"), ("ij", "MGGA"), ("k", "MGGA")):
         u.append(("plan/%s/%s" % (version, level), unit_plan_adjoint(version, level)))
+    for order in ("gq", "qg"):
+        u.append(("plan-transform/" + order, unit_plan_transform(order)))
     return u
 
 
